@@ -42,7 +42,7 @@ def apply_order(ctx, lines):
 CFG = dict(
     imports=["From Verif.C16 Require Import Model Spec.", "Open Scope N_scope."],
     checker="check_case",
-    n=dict(quick=40, thorough=4000),
+    n=dict(quick=40, thorough=480),
     shard=10,
     classify=classify,
     extra=apply_order,
